@@ -237,7 +237,7 @@ func (g *tplGen) elem(d int, condKind string) string {
 	switch {
 	case kind == "void":
 		out = open + ">"
-	case r.p(5):
+	case kind != "raw" && r.p(5): // (a self-closed raw-text element would swallow the rest of the document as text)
 		out = open + " />"
 	default:
 		var body strings.Builder
